@@ -210,28 +210,30 @@ Proof.
 Qed.
 
 (* ---------- combine_validations ----------
-   Exact behaviour: Ok iff no part carries an error (a part `Err(vec![])` contributes nothing);
-   otherwise Err of all errors in order. With the degenerate part `Err(vec![])` excluded this is
-   the property: Ok iff every part is Ok. *)
+   Ok iff every part is Ok; otherwise Err of all errors of all parts, in order (possibly the empty
+   list, when the failed parts carry no error). *)
 Theorem c17_combine_validations :
   forall (E : Type) (rs : list (vresult E)),
-    (combine_validations rs = VOk <-> (forall r, In r rs -> r = VOk \/ r = VErr [])) /\
-    (~ In (VErr []) rs -> (combine_validations rs = VOk <-> Forall (fun r => r = VOk) rs)) /\
-    (combine_validations rs <> VOk ->
+    (combine_validations rs = VOk <-> Forall (fun r => r = VOk) rs) /\
+    (~ Forall (fun r => r = VOk) rs ->
      combine_validations rs = VErr (flat_map result_errors rs)).
 Proof. exact combine_all. Qed.
 
 Example c17_combine_validations_ex :
   combine_validations [VOk; VErr [1; 2]; VOk; VErr [3]]%Z = VErr [1; 2; 3]%Z /\
   combine_validations [VOk; VOk] = @VOk Z /\
-  ~ In (VErr []) [VOk; VErr [1; 2]; VOk; VErr [3]]%Z.
+  combine_validations [VOk; VErr []] = @VErr Z [] /\
+  ~ Forall (fun r => r = VOk) [VOk; @VErr Z []].
 Proof.
-  split; [reflexivity|]. split; [reflexivity|].
-  intros [H|[H|[H|[H|[]]]]]; discriminate H.
+  split; [reflexivity|]. split; [reflexivity|]. split; [reflexivity|].
+  intros H. inversion H as [|? ? _ H2]. inversion H2 as [|? ? H3 _]. discriminate H3.
 Qed.
 
-(* known finding C17-combine-empty-err: a failed part without errors is reported as success *)
-Theorem c17_combine_validations_refuted :
+(* regression documented (finding repaired in /repo commit 2f7c47a): the OLD definition
+   (`if all_errors.is_empty() { Ok } else { Err }`) reported a failed part without errors as
+   success; the current one returns Err [] on the same input *)
+Theorem c17_combine_validations_old_refuted :
   exists (rs : list (vresult Z)),
-    ~ Forall (fun r => r = VOk) rs /\ combine_validations rs = VOk.
-Proof. exact combine_refuted. Qed.
+    ~ Forall (fun r => r = VOk) rs /\ combine_validations_old rs = VOk /\
+    combine_validations rs = VErr [].
+Proof. exact combine_old_refuted. Qed.
